@@ -100,6 +100,15 @@ def main():
         sys.addaudithook(hook)
     if probe:
         install_probe(events)
+    if os.environ.get("VERIF_PROBE_HTTPX"):
+        import httpx
+        _real_post = httpx.post
+
+        def _post(url, *a, **k):
+            events.append({"e": "httpx.post", "url": str(url), "headers": dict(k.get("headers") or {}), "verify": k.get("verify", "@default"),
+                           "json_keys": sorted((k.get("json") or {}).keys())})
+            return _real_post(url, *a, **k)
+        httpx.post = _post
     from click.testing import CliRunner
     from ariadne_codegen.main import main as cli
     cli_args = []
